@@ -4,7 +4,7 @@
    while the removed total is still short).  [bytes_removed_for_every_entry] is regenerated from put_impl on every run. *)
 From Coq Require Import ZArith NArith Bool List.
 Import ListNotations.
-From XetModel Require Import Base.Codec Gen.CacheFacts Model.Merkle Model.Cache Proofs.CacheProofs Proofs.CacheInvProofs Proofs.CacheOrphanProofs Proofs.CacheScanProofs.
+From XetModel Require Import Base.Codec Gen.CacheFacts Model.Merkle Model.Cache Proofs.CacheProofs Proofs.CacheInvProofs Proofs.CacheOrphanProofs Proofs.CacheScanProofs Proofs.Base64Proofs Proofs.CacheReopenProofs Proofs.CacheScanCompleteProofs.
 Open Scope N_scope.
 
 (* num_items and total_bytes equal the count and the summed lengths of the tracked entries after every micro step of
@@ -66,6 +66,24 @@ Example C13_scan_accounting_nonvacuous :
   exists s, initialize (fun b => Some b) (fun _ => true) 100 tree = Some (inr s) /\ nitems s = 1.
 Proof. exact scan_acc_example. Qed.
 
+
+(* re-opening establishes the no-orphan invariant: when the scan runs to the end of the listing (no stop at twice the capacity)
+   over a directory as the cache writes it with this capacity -- prefix directories, key directories whose names decode (no
+   two to one key), regular files no larger than the capacity -- every file left on disk belongs to a tracked entry (files
+   whose name and length do not describe an item are deleted), and so it stays under every later schedule.  The decoder is
+   the strict canonical one (assumption about the base64 crate, as in C12) *)
+Theorem C13_reopen_then_no_orphan : forall (b64d : bytes -> option bytes) (utf8 : bytes -> bool),
+  (forall n b, b64d n = Some b -> b64pad b = n /\ Forall is_byte b) ->
+  forall capacity tree s n, TreeCanon tree -> NoDup (keys_of_tree b64d utf8 tree) -> DirAsWritten b64d utf8 capacity tree ->
+  initialize b64d utf8 capacity tree = Some (inr s) -> a_stop (cscan b64d utf8 capacity tree) = false ->
+  forall es c', crun (s, repeat (PDone COk) n) es = Some c' -> NoOrphan c'.
+Proof. exact reopen_then_no_orphan. Qed.
+Example C13_reopen_no_orphan_nonvacuous :
+  TreeCanon rx_tree /\ NoDup (keys_of_tree rx_dec (fun _ => true) rx_tree) /\ DirAsWritten rx_dec (fun _ => true) 100 rx_tree
+  /\ a_stop (cscan rx_dec (fun _ => true) 100 rx_tree) = false
+  /\ exists s, initialize rx_dec (fun _ => true) 100 rx_tree = Some (inr s) /\ NoOrphan (s, repeat (PDone COk) 2).
+Proof. exact scan_complete_example. Qed.
+
 Print Assumptions C13_step_keeps_counters_exact.
 Print Assumptions C13_counters_exact_every_schedule.
 Print Assumptions C13_capacity_after_insert.
@@ -73,3 +91,5 @@ Print Assumptions C13_drift_refuted.
 Print Assumptions C13_no_orphan_every_schedule.
 Print Assumptions C13_quiescent_every_file_tracked.
 Print Assumptions C13_scan_accounting.
+Print Assumptions C13_reopen_then_no_orphan.
+Print Assumptions C13_reopen_no_orphan_nonvacuous.
